@@ -8,17 +8,27 @@
 (* the rest after it, in any order.  Observable events:                    *)
 (*   Set(i, k, v)  input i completed: k = "ok" with value v, k = "fail"    *)
 (*                 with exception id v, k = "nest" (Unwrap/Map chains      *)
-(*                 only) with value = the AsyncResult number v             *)
+(*                 only) with value = the AsyncResult number v.            *)
+(*                 ContinueWith: input 1 is the source; inputs 2..an are   *)
+(*                 further result objects the continuation may hand back   *)
+(*                 (a follow-up operation); the environment completes      *)
+(*                 them, or not, at any time before / after call and run.  *)
 (*   New           the combinator was called (inputs completed so far are  *)
 (*                 the "already complete at call time" subset)             *)
 (*   Run(r)        ContinueWith: the continuation ran (r.ready = was the   *)
-(*                 source ready, r.out/r.v = what it returned or raised)   *)
+(*                 source ready, r.out/r.v = what it returned or raised;   *)
+(*                 out = "ar": it returned the result OBJECT number v      *)
+(*                 itself (v = 1: the source it was handed, v = 2: the     *)
+(*                 follow-up result), whatever state that object is in)    *)
 (*                 Map: the mapped function was applied (r.arg, r.out,     *)
 (*                 r.v; out = "nest": it returned AsyncResult number v)    *)
 (*   Obs(o)        at a quiescent point: o = [ready, ok, exn, vk, val] of  *)
 (*                 the combined result: ready(), successful(), the id of   *)
 (*                 .exception (-1 = None), and .value as kind + int seq    *)
-(*                 (vk = "none" | "int" | "list" | "other").               *)
+(*                 (vk = "none" | "int" | "list" | "ar" | "other"; "ar":   *)
+(*                 .value IS (identity) the AsyncResult number val[1] of   *)
+(*                 this run -- a token distinct from whatever that result  *)
+(*                 holds or will hold).                                    *)
 (*   Reset(comb,n) (thorough tier only) the trace continues with a new,    *)
 (*                 independent combinator call; the machine starts afresh  *)
 (* gevent's AsyncResult is re-settable (set then set_exception keeps the   *)
@@ -45,7 +55,15 @@
 (*                failure that ends the chain.                             *)
 (*  C17.continueWith  continuation ran 0 times before / exactly once after *)
 (*                completion of the source (success or failure); the       *)
-(*                returned result holds what it returned / raised.         *)
+(*                returned result holds what it returned / raised.  "What  *)
+(*                it returned" is the returned object whatever its kind:   *)
+(*                when the continuation returns a result object r          *)
+(*                (pending, complete, failed, completed later or never)    *)
+(*                the ContinueWith result is successful with value r       *)
+(*                itself at the first quiescent point after the run and    *)
+(*                stays so -- it neither waits for r, nor takes r's value, *)
+(*                nor fails with r's failure (flattening is the business   *)
+(*                of Unwrap / Map, see C17.unwrap / C17.map).              *)
 (*  C17.map       function applied only when the source succeeded and to   *)
 (*                its value; result = outcome of the function (unwrapped   *)
 (*                when it returns a result); a failed source gives a       *)
@@ -103,7 +121,8 @@ NewUpd == acall' = Len(adone) /\ UNCHANGED <<acomb, an, adone, aruns>>
 RunCheck(r) ==
   IF ~Called THEN "harness.runBeforeNew"
   ELSE IF acomb = "ContinueWith"
-  THEN (IF Len(aruns) >= 1 \/ Len(adone) = 0 \/ ~r.ready THEN "C17.continueWith" ELSE "ok")
+  THEN (IF r.out = "ar" /\ r.v \notin 1..an THEN "harness.runAr"
+        ELSE IF Len(aruns) >= 1 \/ 1 \notin DoneIdx \/ ~r.ready THEN "C17.continueWith" ELSE "ok")
   ELSE IF acomb = "Map"
   THEN (IF 1 \notin DoneIdx THEN "C17.map"
         ELSE IF Rec(1).k # "ok" \/ r.arg # Rec(1).v THEN "C17.map" ELSE "ok")
@@ -117,6 +136,9 @@ RunUpd(r) ==
 Pending(o) == ~o.ready
 OkInt(o, vs) == /\ o.ready /\ o.ok /\ o.exn = -1
                 /\ o.vk = "int" /\ Len(o.val) = 1 /\ o.val[1] \in vs
+\* successful, and the value is the result object number a itself
+OkAr(o, a) == /\ o.ready /\ o.ok /\ o.exn = -1
+              /\ o.vk = "ar" /\ Len(o.val) = 1 /\ o.val[1] = a
 Failed(o) == o.ready /\ ~o.ok /\ o.exn # -1
 FailedWith(o, es) == Failed(o) /\ o.exn \in es
 
@@ -152,11 +174,14 @@ Matches(o, x) ==
 
 UnwrapOk(o) == Matches(o, Resolve(1))
 
+\* source = result 1.  The state of a returned result object (aruns[1].out = "ar") is
+\* deliberately not consulted: the object itself is the captured value.
 CwOk(o) ==
-  IF Len(adone) = 0 THEN Len(aruns) = 0 /\ Pending(o)
+  IF 1 \notin DoneIdx THEN Len(aruns) = 0 /\ Pending(o)
   ELSE /\ Len(aruns) = 1
-       /\ IF aruns[1].out = "ret" THEN OkInt(o, {aruns[1].v})
-          ELSE FailedWith(o, {aruns[1].v})
+       /\ CASE aruns[1].out = "ret" -> OkInt(o, {aruns[1].v})
+            [] aruns[1].out = "ar"  -> OkAr(o, aruns[1].v)
+            [] OTHER                -> FailedWith(o, {aruns[1].v})
 
 MapOk(o) ==
   IF 1 \notin DoneIdx THEN Len(aruns) = 0 /\ Pending(o)
